@@ -191,6 +191,7 @@ inductive Ev where
   | drop (v : Nat) | dropc (v : Nat) | clone (v : Nat)
   | ret (o : Out)
   | panic (cls : String)
+  | taken (vs : List Nat)   -- what a caller had received from a chunk / remainder whose drop then panicked
   deriving Repr, DecidableEq, Inhabited
 
 def Ev.str : Ev → String
@@ -210,6 +211,7 @@ def Ev.str : Ev → String
   | .clone v => s!"clone {v}"
   | .ret o => s!"ret {o.str}"
   | .panic c => s!"panic {c}"
+  | .taken vs => "taken" ++ String.join (vs.map fun v => s!" {v}")
 
 /-- a trace line: who (`none` = the owner / main thread) and what -/
 structure Line where
